@@ -18,7 +18,7 @@ type c17Case struct {
 	Prior  int  `json:"prior,omitempty"`  // 0 none; 1: a failing Response under the opposite debug mode was served earlier in this process; 2: one under the same mode with another error
 }
 
-var c17Pages = []string{"ok", "fail-start", "fail-middle", "fail-end", "fail-in-layout", "fail-in-component", "fail-second-pass", "unknown", "fail-in-insert", "fail-after-component"}
+var c17Pages = []string{"ok", "fail-start", "fail-middle", "fail-end", "fail-in-layout", "fail-in-component", "fail-second-pass", "unknown", "fail-in-insert", "fail-after-component", "fail-in-insert-arg"}
 
 var c17Faults = []struct{ src, msgPart string }{
 	{"{{ secretVar }}", "secretVar"},
@@ -49,6 +49,9 @@ func c17Tree(cs c17Case) (Tree, string) {
 		t.Files["p.tw"] = `@use("lay")@insert("a")` + c17Marker + "1@end"
 	case "fail-in-insert":
 		t.Files["p.tw"] = `@use("lay")@insert("a")` + c17Marker + "1\n" + fault + "@end"
+	case "fail-in-insert-arg":
+		expr := strings.TrimSuffix(strings.TrimPrefix(fault, "{{ "), " }}")
+		t.Files["p.tw"] = `@use("lay")` + c17Marker + `1 @insert("a", ` + expr + ")"
 	case "fail-in-component":
 		t.Files["comp.tw"] = "<c>" + c17Marker + "C {{ a }}\n" + fault + "</c>"
 		t.Files["p.tw"] = c17Marker + "1 @component(\"comp\", {a: 5}) " + c17Marker + "2"
